@@ -661,6 +661,10 @@ TARGETS = [
     ("Src_uri", "split_uri_src", "idpyoidc.util:split_uri", {}),
     ("Src_reg", "random_client_id_src", "idpyoidc.server.oidc.registration:random_client_id", {}),
     ("Src_pkce", "verify_code_challenge_src", "idpyoidc.server.oauth2.add_on.pkce:verify_code_challenge", {}),
+    # twelfth round: small decision helpers the hand-written models restate
+    ("Src_authz", "is_localhost_uri_src", "idpyoidc.server.oauth2.authorization:is_localhost_uri", {}),
+    ("Src_authz", "fragment_encoding_src", "idpyoidc.server.endpoint:fragment_encoding", {}),
+    ("Src_authn", "AuthnEvent_is_valid_src", "idpyoidc.server.authn_event:AuthnEvent.is_valid", {}),
 ]
 
 
@@ -681,9 +685,16 @@ def main(outdir):
                 func = func.__func__
             groups.setdefault(group, []).append(translate(func, coqname, methods))
         except Unsupported as e:
-            print("BROKEN-TRANSLATION: %s (%s): construct outside the translated subset: %s" % (coqname, spec, e))
+            print("BROKEN-TRANSLATION: [Gen/%s.v] %s (%s): construct outside the translated subset: %s" % (group, coqname, spec, e))
         except Exception as e:
-            print("BROKEN-TRANSLATION: %s (%s): %s: %s" % (coqname, spec, type(e).__name__, e))
+            print("BROKEN-TRANSLATION: [Gen/%s.v] %s (%s): %s: %s" % (group, coqname, spec, type(e).__name__, e))
+    # a group none of whose functions translates leaves no file behind (a stale one would keep old proofs alive)
+    for group in {t[0] for t in TARGETS} - set(groups):
+        for ext in (".v", ".vo", ".vos", ".vok", ".glob"):
+            try:
+                os.remove(os.path.join(outdir, group + ext))
+            except OSError:
+                pass
     for group, defs in groups.items():
         hdr = ("(* GENERATED by harness/py2v.py from the current /repo/src on every run — do not edit. *)\n"
                "From Coq Require Import String ZArith List.\nFrom Verif Require Import Lib.Base Lib.PyStr Lib.PyOps.\n"
